@@ -13,12 +13,15 @@ type goField struct {
 	Type     string // source text of the type
 	JSON     string // json tag name ("" when none, "-" when hidden)
 	Embedded bool
+	Omit     bool // json tag has ,omitempty
 }
 
 type goDecls struct {
 	structs    map[string][]goField
 	premarshal map[string][]string          // struct name -> JSON names of its __premarshal struct, in order
 	premarshalGo map[string]map[string]string // struct name -> Go field name -> JSON name (from its __premarshal struct)
+	premarshalFields map[string]map[string]goField // struct name -> Go field name -> its field in the __premarshal struct
+	named map[string]string // non-struct named types: name -> underlying type text
 	ifaceImpls map[string]map[string]string // Go interface name -> (__typename -> implementation struct)
 	ifaceOrder map[string][]string
 }
@@ -38,7 +41,7 @@ func tagJSON(tag string) string {
 }
 
 func parseGoDecls(src []byte) *goDecls {
-	d := &goDecls{structs: map[string][]goField{}, premarshal: map[string][]string{}, premarshalGo: map[string]map[string]string{}, ifaceImpls: map[string]map[string]string{}, ifaceOrder: map[string][]string{}}
+	d := &goDecls{named: map[string]string{}, premarshalFields: map[string]map[string]goField{}, structs: map[string][]goField{}, premarshal: map[string][]string{}, premarshalGo: map[string]map[string]string{}, ifaceImpls: map[string]map[string]string{}, ifaceOrder: map[string][]string{}}
 	fset := gotoken.NewFileSet()
 	f, err := goparser.ParseFile(fset, "generated.go", src, 0)
 	if err != nil {
@@ -54,6 +57,9 @@ func parseGoDecls(src []byte) *goDecls {
 				ts := sp.(*goast.TypeSpec)
 				st, ok := ts.Type.(*goast.StructType)
 				if !ok {
+					if _, isIface := ts.Type.(*goast.InterfaceType); !isIface {
+						d.named[ts.Name.Name] = exprString(fset, ts.Type)
+					}
 					continue
 				}
 				var fs []goField
@@ -67,13 +73,16 @@ func parseGoDecls(src []byte) *goDecls {
 						continue
 					}
 					for _, n := range fl.Names {
-						fs = append(fs, goField{Name: n.Name, Type: exprString(fset, fl.Type), JSON: tagJSON(tag)})
+						fs = append(fs, goField{Name: n.Name, Type: exprString(fset, fl.Type), JSON: tagJSON(tag), Omit: strings.Contains(tag, ",omitempty")})
 					}
 				}
 				if strings.HasPrefix(ts.Name.Name, "__premarshal") {
 					var names []string
 					byGo := map[string]string{}
+					pf := map[string]goField{}
+					d.premarshalFields[strings.TrimPrefix(ts.Name.Name, "__premarshal")] = pf
 					for _, x := range fs {
+						pf[x.Name] = x
 						names = append(names, x.JSON)
 						byGo[x.Name] = x.JSON
 					}
